@@ -25,7 +25,7 @@ META = {
     "encoded": ["csr.reg.Register.__init__", "csr.reg.Register.__iter__", "csr.reg.Register.elaborate",
                 "csr.reg.FieldActionMap.__init__/flatten", "csr.reg.FieldActionArray.__init__/flatten",
                 "csr.reg.Field.create", "csr.reg.FieldPort.Signature"],
-    "also": 'underscore-prefixed annotation names, subclassed annotation-defined registers, sub-collections that are the same object twice, second elaboration of the same register, r_data of non-readable fields arbitrary',
+    "also": 'underscore-prefixed annotation names, subclassed annotation-defined registers, sub-collections that are the same object twice, second elaboration of the same register, field paths that coincide under an underscore flattening, r_data of non-readable fields arbitrary',
     "bounds": "field collections: single Field, dict, list, nested dict/list up to depth 3, annotation-defined "
               "classes; 1-6 leaves (thorough 1-9); actions R/W/RW/RW1C/RW1S/reserved; shapes unsigned 0-9, signed "
               "1-5, enum; register access r/w/rw; every value on element and field ports (one free frame)",
@@ -101,6 +101,12 @@ def configs(tier, seed):
             # whose instance was created first (per-class state must not leak through inheritance)
             cfg["base_tree"] = {"dict": [["base0", _gen_leaf(rnd, allowed)], ["base1", _gen_leaf(rnd, allowed)]]}
         out.append(cfg)
+    # field paths that meet under a flattening with '_' (legal: distinct under the library's own '__' join)
+    L = lambda act, w: {"leaf": act, "shape": ["u", w]}
+    for acc, tree in (("rw", {"dict": [["rx", {"dict": [["en", L("RW", 2)], ["mode", L("R", 3)]]}], ["rx_en", L("RW", 4)], ["rx_mode", L("W", 1)]]}),
+                      ("rw", {"dict": [["ch", {"list": [L("RW", 2), L("W", 3)]}], ["ch_0", L("R", 4)], ["ch_1", L("RW", 1)]]}),
+                      ("r", {"dict": [["a", {"dict": [["b", {"dict": [["c", L("R", 2)]]}]]}], ["a_b", {"dict": [["c", L("R", 3)]]}], ["a_b_c", L("R", 1)]]})):
+        out.append({"acc": acc, "tree": tree, "style": "arg", "second": False})
     # an unservable field at ANY position of ANY collection shape must be refused (executed, not solved)
     import copy
     k = 0
